@@ -331,6 +331,44 @@ def cap_location() -> dict[str, str]:
     return {"capLocation": loc, "defaultMaxRepetitions": str(default)}
 
 
+# ------------------------------------------------------------------------------------------------
+# how the parser compiles an open-ended repetition
+# ------------------------------------------------------------------------------------------------
+
+OPEN_TAIL = ("tail_alts: IterativeParserVisitorReturnType = [[]]\n"
+             "tail = self.set_implicit_rule(tail_alts)\n"
+             "tail_alts.append([nt, tail])\n"
+             "min_nt = self.set_implicit_rule([node_min * [nt] + [tail]])\n"
+             "self.set_rule(repetition_nt, [[min_nt]])\n"
+             "return [[(repetition_nt, frozenset())]]")
+
+
+def open_parse() -> dict[str, str]:
+    """`.unbounded`: visitRepetition gives `{n,}` n iterations and a right-recursive tail (pinned text);
+    `.cappedAtBuild`: it unrolls `range(node.min, node.max)` and `Repetition.max` reads the cap."""
+    mod = parse_file("language/grammar/parser/iterative_parser.py")
+    fn = find_func(find_class(mod, "IterativeParser"), "visitRepetition")
+    branch = None
+    for n in ast.walk(fn):
+        if isinstance(n, ast.If) and ast.unparse(n.test) == "node.bounds_constraint is not None" and n.orelse:
+            branch = n.orelse
+    if branch is None:
+        raise Refusal("visitRepetition: no static-bounds branch found")
+    texts = [ast.unparse(s) for s in branch]
+    if texts[:2] != ["node_min = node.min", "node_max = node.max"]:
+        raise Refusal(f"visitRepetition reads the static bounds differently: {texts[:2]}")
+    loops = [ast.unparse(n.iter) for n in ast.walk(fn) if isinstance(n, ast.For)]
+    if loops != ["range(node_min, node_max)"]:
+        raise Refusal(f"visitRepetition unrolls differently: {loops}")
+    if len(texts) == 2:
+        return {"openParse": ".cappedAtBuild"}
+    if len(texts) == 3 and isinstance(branch[2], ast.If) \
+            and ast.unparse(branch[2].test) == "node.internal_max is None" and not branch[2].orelse \
+            and "\n".join(ast.unparse(s) for s in branch[2].body) == OPEN_TAIL:
+        return {"openParse": ".unbounded"}
+    raise Refusal("visitRepetition: unknown treatment of an open upper bound: " + " | ".join(texts[2:])[:400])
+
+
 HEADER = """/-
 GENERATED by harness/translate_env.py from /repo's current source — do not edit.
 Tuner constants (exact ratios of the float literals), the keyword defaults that reach the tuner, the
@@ -342,7 +380,7 @@ open FV.Env
 
 """
 
-CFG_FIELDS = ["fitThr", "divThr", "mutUp", "mutHi", "mutDown", "mutLo", "crDown", "crLo", "crUp", "crHi",
+CFG_FIELDS = ["openParse", "fitThr", "divThr", "mutUp", "mutHi", "mutDown", "mutLo", "crDown", "crLo", "crUp", "crHi",
               "minInc", "safeRep", "safeNodes"]
 SET_FIELDS = ["mutR", "crossR", "maxReps", "repRate", "maxNodes", "nodesRate"]
 
@@ -350,7 +388,8 @@ SET_FIELDS = ["mutR", "crossR", "maxReps", "repRate", "maxNodes", "nodesRate"]
 def regenerate() -> dict[str, Any]:
     refusals: list[str] = []
     vals: dict[str, str] = {}
-    for name, fn in (("tuner", tuner_constants), ("settings", algorithm_settings), ("cap", cap_location)):
+    for name, fn in (("tuner", tuner_constants), ("settings", algorithm_settings), ("cap", cap_location),
+                     ("open-parse", open_parse)):
         try:
             vals.update(fn())
         except Refusal as e:
